@@ -21,6 +21,7 @@ RelFor(label, i) ==
       [] label = "other-arch"  -> << <<[name |-> Bin(i, 2), restr |-> "only-other"]>> >>
       [] label = "after-subst" -> << <<[name |-> <<120>>, restr |-> "substvar"], [name |-> Bin(i, 2), restr |-> "not-other"]>> >>
       [] label = "fallback"    -> << <<[name |-> Ext, restr |-> "not-target"], [name |-> Bin(i, 1), restr |-> "none"]>> >>
+      [] label = "excluded"    -> << <<[name |-> Bin(i, 2), restr |-> "not-target2"], [name |-> Ext, restr |-> "none"]>> >>   \* "[!i386 !amd64]": not for the target -> no edge
       [] label = "none"        -> <<>>
 Labelings == [Pairs -> Labels]
 FieldOf(i, j) == 1 + ((i + j) % 3)
